@@ -15,6 +15,7 @@
 
 #include "with_allocator.h"
 #include "function.h"
+#include "verif_hooks.h"
 
 #include <utility>
 namespace cocls {
@@ -157,10 +158,12 @@ public:
         //the trailer holds the owner only for the shared block, nullptr for a heap block,
         //so dealloc never has to read _ptr, which the current holder may be changing
         reusable_storage_mtsafe *owner;
+        COCLS_VERIF_POINT("busy_x");
         if (_busy.exchange(true, std::memory_order_acquire)) {
             p = ::operator new(sz+sizeof(reusable_storage_mtsafe **));
             owner = nullptr;
         } else {
+            COCLS_VERIF_POINT("busy_g");
             p = reusable_storage::alloc(sz+sizeof(reusable_storage_mtsafe **));
             owner = this;
         }
@@ -169,6 +172,7 @@ public:
         return p;
     }
     static void dealloc(void *ptr, std::size_t sz) {
+        COCLS_VERIF_POINT("busy_s");
         auto s = reinterpret_cast<reusable_storage_mtsafe **>(reinterpret_cast<char *>(ptr) + sz);
         auto me = *s;
         if (me) {
